@@ -326,7 +326,35 @@ def classify(res):
     return "exit%d" % res.exit_code
 
 
+def several_objects(ctx, fx, case):
+    """the command takes several OBJECT arguments: one line each, in order; verification of more
+    than one object is documented as unsupported"""
+    from click.testing import CliRunner
+
+    from swh.model.cli import identify
+
+    _tolerant_runner()
+    f_, d_ = os.fsdecode(fx.file), os.fsdecode(fx.dir)
+    try:
+        (f_ + d_).encode("utf-8")
+    except UnicodeEncodeError:
+        return
+    want_f = fx.expected_swhid("contentOfFile", False, "file")
+    want_d = fx.expected_swhid("directory", False, "dir")
+    with time_limit(60):
+        r = CliRunner().invoke(identify, ["--no-filename", f_, d_, f_])
+    out = os.fsdecode(r.stdout_bytes)
+    if classify(r) != "exit0" or out.splitlines() != [want_f, want_d, want_f]:
+        ctx.fail(dict(case, objects=3), "several OBJECT arguments are not identified one line each, in order", "several-objects-wrong", {"output": out[:300], "want": [want_f, want_d, want_f]})
+    with time_limit(60):
+        r = CliRunner().invoke(identify, ["--verify", want_f, f_, f_])
+    if classify(r) != "usageError":
+        ctx.fail(dict(case, objects=2), "verification of several objects (documented as unsupported) is not a usage error", "missing-usage-error:several-objects", {"class": classify(r)})
+    ctx.count("several-objects")
+
+
 def check_cases(ctx, cases):
+    done_fixtures = set()
     reqs = [{"op": "cli_identify", **{k: c[k] for k in ("kind", "type", "deref", "filename", "recursive", "verify", "exclude")}} for c in cases]
     res = ctx.model(reqs)
     for case, r in zip(cases, res):
@@ -342,6 +370,9 @@ def check_cases(ctx, cases):
             ctx.count("out-of-scope")
             continue
         fx = fixture(case["fixture"])
+        if case["fixture"] not in done_fixtures:
+            done_fixtures.add(case["fixture"])
+            several_objects(ctx, fx, case)
         fx.url = URLS[case["url"]] if "url" in case else fx.default_url
         ctx.case(case, nontrivial=True)
         ctx.count("kind=" + case["kind"])
